@@ -201,6 +201,7 @@ def check_round(ctx, F, extras=False, E=None):
 
 def check(ctx, F):
     check_forward(ctx, F)
+    check_forward_leaf(ctx, F)
     from .common import check_accessors
     check_accessors(ctx, F, "C04.forward")        # the guard walk reads the requested prongs / bits through these accessors
     # ... and an orthogonal region decides which sub-regions a guard round visits by CBits::get(prong) on that view
@@ -283,6 +284,26 @@ def check_bounded(ctx, F, fid, b, site):
         ctx.violation("C04.bounded", site, "%s (%s)" % (site, F.floc(fid)),
                       "round loop is not `for (s = 0; s < SUBSTITUTION_LIMIT && ...; ++s)` with s untouched in the body "
                       "(bound test: s %s SUBSTITUTION_LIMIT, init 0: %s, ++s: %s, s written in body: %s)" % (found, ok_init, ok_inc, written), {})
+
+
+def check_forward_leaf(ctx, F):
+    """the forward walk ends at the leaves: below a leaf nothing can be pending, so S_::deepForwardEntryGuard / deepForwardExitGuard answer
+    'no objection' (true) without invoking anything - `false` there vetoes a round that no guard cancelled (reached when an orthogonal region
+    forwards to all its prongs: a request aimed at an orthogonal root)"""
+    for spec in ("headed", "empty"):
+        for fid, b in insts(F, "S_", {"deepForwardEntryGuard", "deepForwardExitGuard"}, spec=spec):
+            site = "S_<%s>::%s" % (spec, b["name"])
+            rets = [x for x in walk(b["body"]) if x.get("k") == "ret"]
+            calls = [x for x in walk(b["body"]) if x.get("k") in ("call", "icall")]
+            val = None
+            if len(rets) == 1 and rets[0].get("e") is not None:
+                e = strip(rets[0]["e"])
+                val = e.get("cv", e.get("v"))
+            ctx.instance("C04.forward", site + "/leaf", {"function": site, "loc": F.floc(fid), "returns": val})
+            if calls or val not in (True, 1):
+                ctx.violation("C04.forward", site + "/leaf", "%s (%s)" % (site, F.floc(fid)),
+                              "%s answers `%s`%s for a leaf: the forward walk must end in 'no objection' there - otherwise a round is vetoed although "
+                              "no guard cancelled it" % (site, val, " after calling something" if calls else ""), {})
 
 
 def check_rounds_once(ctx, F):
